@@ -893,17 +893,13 @@ fn generate_hunks(
         // Create the after line by replacing the variant in the original line
         // Use the column position from the match to ensure we replace the right occurrence
         let match_col = m.column;
-        // The column is a byte offset into the raw line; the line shown here was decoded lossily,
-        // so the column may lie outside it or inside a character: use checked slicing.
-        let line_after = if let Some(rest) = line_string
-            .get(match_col..)
-            .filter(|tail| !tail.is_empty())
-            .and_then(|tail| tail.strip_prefix(content.as_str()))
-        {
-            let mut after_line = String::new();
-            after_line.push_str(&line_string[..match_col]);
+        // The column is a byte offset into the raw line, which is shown decoded lossily (U+FFFD is
+        // longer than the byte it replaces): decode the text before and after the match separately.
+        let raw_end = match_col + content.len();
+        let line_after = if line.get(match_col..raw_end) == Some(content.as_bytes()) {
+            let mut after_line = String::from_utf8_lossy(&line[..match_col]).into_owned();
             after_line.push_str(&replace);
-            after_line.push_str(rest);
+            after_line.push_str(&String::from_utf8_lossy(&line[raw_end..]));
             after_line
         } else {
             // Fallback: try to find the match in the line
@@ -919,8 +915,11 @@ fn generate_hunks(
             }
         };
 
-        // Calculate character offset from byte offset
-        let char_offset = byte_offset_to_char_offset(&line_before, m.column);
+        // Character offset of the match in the line as shown: the characters decoded in front of it
+        let char_offset = line.get(..match_col).map_or_else(
+            || byte_offset_to_char_offset(&line_before, match_col),
+            |head| String::from_utf8_lossy(head).chars().count(),
+        );
 
         hunks.push(MatchHunk {
             file: normalize_path(path),
